@@ -48,10 +48,10 @@ pub fn apply_repl<T: rspack_sources::Source>(r: &mut ReplaceSource<T>, p: &Repl)
 /// `prebuilt` is used for the node kinds that only exist boxed in this harness
 fn add_typed(c: &mut ConcatSource, x: &Spec, prebuilt: BoxSource) {
   match x {
-    Spec::Raw(t) => c.add(RawSource::from(t.clone())),
-    Spec::RawBytes(b) => c.add(RawSource::from(b.clone())),
-    Spec::RawStr(t) => c.add(RawStringSource::from(t.clone())),
-    Spec::RawBuf(b) => c.add(RawBufferSource::from(b.clone())),
+    Spec::Raw(t) => c.add(raw_leaf(t)),
+    Spec::RawBytes(b) => c.add(raw_bytes_leaf(b)),
+    Spec::RawStr(t) => c.add(raw_str_leaf(t)),
+    Spec::RawBuf(b) => c.add(raw_buf_leaf(b)),
     Spec::Orig { text, name } => c.add(OriginalSource::new(text.clone(), name.clone())),
     _ => c.add(prebuilt),
   }
@@ -92,12 +92,64 @@ pub fn build_replace(inner: &Spec, repls: &[Repl]) -> ReplaceSource<BoxSource> {
   r
 }
 
+/// a `&'static str` with this content: interned in a process-wide table (one allocation per distinct
+/// text, reachable from a static, so the leak checker of the sanitizer builds does not count it)
+pub fn interned(t: &str) -> &'static str {
+  use std::collections::HashSet;
+  use std::sync::{Mutex, OnceLock};
+  static TABLE: OnceLock<Mutex<HashSet<&'static str>>> = OnceLock::new();
+  let mut g = TABLE.get_or_init(Default::default).lock().unwrap();
+  if let Some(s) = g.get(t) {
+    return s;
+  }
+  let s: &'static str = Box::leak(t.to_string().into_boxed_str());
+  g.insert(s);
+  s
+}
+
+/// which public constructor spelling a raw leaf is built with: a pure function of its content, so every
+/// build of a Spec makes the same constructor calls (0: From<String> / From<Vec<u8>>, 1: From<&str> /
+/// From<&[u8]>, 2: from_static - short texts only, the table above never shrinks)
+fn spelling(len: usize, first: u8) -> u8 {
+  ((len as u8).wrapping_mul(7).wrapping_add(first)) % 3
+}
+
+fn raw_leaf(t: &str) -> RawSource {
+  match spelling(t.len(), t.as_bytes().first().copied().unwrap_or(0)) {
+    1 => RawSource::from(t),
+    2 if t.len() <= 64 => RawSource::from_static(interned(t)),
+    _ => RawSource::from(t.to_string()),
+  }
+}
+
+fn raw_str_leaf(t: &str) -> RawStringSource {
+  match spelling(t.len(), t.as_bytes().first().copied().unwrap_or(0)) {
+    1 => RawStringSource::from(t),
+    2 if t.len() <= 64 => RawStringSource::from_static(interned(t)),
+    _ => RawStringSource::from(t.to_string()),
+  }
+}
+
+fn raw_bytes_leaf(b: &[u8]) -> RawSource {
+  match spelling(b.len(), b.first().copied().unwrap_or(0)) {
+    1 => RawSource::from(b),
+    _ => RawSource::from(b.to_vec()),
+  }
+}
+
+fn raw_buf_leaf(b: &[u8]) -> RawBufferSource {
+  match spelling(b.len(), b.first().copied().unwrap_or(0)) {
+    1 => RawBufferSource::from(b),
+    _ => RawBufferSource::from(b.to_vec()),
+  }
+}
+
 pub fn build(s: &Spec) -> BoxSource {
   match s {
-    Spec::Raw(t) => RawSource::from(t.clone()).boxed(),
-    Spec::RawBytes(b) => RawSource::from(b.clone()).boxed(),
-    Spec::RawStr(t) => RawStringSource::from(t.clone()).boxed(),
-    Spec::RawBuf(b) => RawBufferSource::from(b.clone()).boxed(),
+    Spec::Raw(t) => raw_leaf(t).boxed(),
+    Spec::RawBytes(b) => raw_bytes_leaf(b).boxed(),
+    Spec::RawStr(t) => raw_str_leaf(t).boxed(),
+    Spec::RawBuf(b) => raw_buf_leaf(b).boxed(),
     Spec::Orig { text, name } => OriginalSource::new(text.clone(), name.clone()).boxed(),
     Spec::Sms { text, name, map, full: None } => SourceMapSource::new(WithoutOriginalOptions {
       value: text.clone(),
